@@ -67,14 +67,18 @@ class C08(Prop):
         for k in range(N // 5):
             # observations and predictions in (different) narrow / unsigned / single-precision dtypes
             n = rng.randint(1, 8)
-            ydt = rng.choice(["int64", "int32", "uint8", "uint16", "uint32", "bool", "float32"])
-            zdt = rng.choice(["float32", "float32", "uint8", "uint32", "int64", "bool", "float64"])
-            top = 1 if "bool" in (ydt, zdt) else 200
+            ydt = rng.choice(["int64", "int32", "uint8", "uint16", "uint32", "bool", "float32", "int8", "int16"])
+            zdt = rng.choice(["float32", "float32", "uint8", "uint32", "int64", "bool", "float64", "int8", "int16"])
+            top = 1 if "bool" in (ydt, zdt) else (100 if "int8" in (ydt, zdt) else 200)
             ysf = [float(rng.randint(0, top)) for _ in range(n)]
             if zdt in ("float32", "float64") and top > 1:
                 zsf = [rng.choice([y, float(rng.randint(-2 * top, top)) / 2, -0.5 - rng.randint(0, 5)]) for y in ysf]  # negative non-integers
             else:
                 zsf = [float(rng.randint(0, top)) for _ in ysf]
+            if ydt in ("int8", "int16") and zdt in ("int8", "int16"):
+                # wide spread: the difference does not fit the dtype
+                ysf = [float(rng.choice([-1, 1]) * rng.randint(90, 100)) for _ in range(n)]
+                zsf = [float(-y) if rng.random() < 0.7 else y for y in ysf]
             yield {"stream": "pairs", "f": rng.choice(FUNCS), "level": rng.choice(ic.DYADIC_LEVELS[:9]), "ydtype": ydt, "zdtype": zdt,
                    "y": [str(Fraction(v)) for v in ysf], "z": [str(Fraction(v)) for v in zsf]}
         M = 400 if tier == "quick" else 6000
